@@ -1982,9 +1982,11 @@ fn gen_send_case(p: &mut Prng, roles: &[RoleDef], k: usize, allow_panic: bool) -
 fn gen_world(p: &mut Prng) -> WorldSpec {
     let roles = topo(p.below(6));
     let ncases = p.range(6, 14) as usize;
-    let mut cases: Vec<SendCase> = (0..ncases).map(|k| gen_send_case(p, &roles, k, false)).collect();
+    // sends to an unknown session and `#_parent` without parent (P9: they used to panic, repaired
+    // by /repo commits 9d6cb1f and bcf85d6) are ordinary failing sends now and appear anywhere
+    let mut cases: Vec<SendCase> = (0..ncases).map(|k| gen_send_case(p, &roles, k, true)).collect();
     if p.chance(1, 2) {
-        // one panicking send, last (it poisons the processor shared by the whole executor)
+        // one more of them, last (when they panicked they poisoned the processor shared by the executor)
         let k = cases.len();
         let mut c = gen_send_case(p, &roles, k, true);
         let hosts: Vec<usize> = (0..roles.len()).filter(|r| roles[*r].parent.is_none()).collect();
@@ -2025,16 +2027,18 @@ fn c15_corpus() -> Vec<WorldSpec> {
                 sc(0, Tgt::NoSuchChild("nochild"), How::Literal, Payload::None, SendIdForm::None, TypeForm::Absent, "t.9"),
                 sc(0, Tgt::Foreign("http://localhost/x"), How::Literal, Payload::None, SendIdForm::Literal("e2"), TypeForm::Absent, "t.10"),
                 sc(0, Tgt::Session(2, 0), How::Literal, Payload::None, SendIdForm::None, TypeForm::Bad, "t.11"),
-                // P9: unknown session → todo!() (session thread dies)
+                // P9 (repaired): unknown session → error.communication, the session goes on
                 sc(2, Tgt::UnknownSession, How::Literal, Payload::None, SendIdForm::None, TypeForm::Absent, "t.12"),
             ],
         },
-        // P9: #_parent without parent → unwrap() panic
+        // P9 (repaired): #_parent without parent → error.communication
         WorldSpec {
             roles: topo(0),
             cases: vec![
                 sc(1, Tgt::Session(0, 0), How::Literal, Payload::None, SendIdForm::None, TypeForm::Absent, "t.0"),
                 sc(0, Tgt::Parent, How::Literal, Payload::None, SendIdForm::None, TypeForm::Absent, "t.1"),
+                sc(0, Tgt::UnknownSession, How::Literal, Payload::None, SendIdForm::Literal("u1"), TypeForm::Absent, "t.2"),
+                sc(0, Tgt::Session(1, 0), How::Literal, Payload::None, SendIdForm::None, TypeForm::Absent, "t.3"),
             ],
         },
         // P13: a middle session's events to its own child, to a sibling of its parent, and the
